@@ -82,6 +82,26 @@ CHECKS = {
          "interposed failing fsync() and fclose(), fsync option off/on, outputs smaller and larger than the stdio buffer."),
    note=TB + "stdio's reporting of failed write(2) calls through fflush/ferror and the kernel are trusted.",
    technique='decision-logic theorems over an I/O fault oracle in Lean 4 + fault enumeration correspondence', ref='§5 C12'),
+ 'C13': dict(
+   text=("Partial. Proved: C13_sites — in the inventory of raw allocation calls (malloc/calloc/realloc/strdup/...; extracted on every run from "
+         "the PREPROCESSED C and C++ translation units, generated scanner and parser included, so YYMALLOC and flex's allocators are "
+         "resolved) every call sits inside a checked wrapper; C13_wrappers — the wrappers have the catalogued text (allocate, test, call "
+         "the handler); C13_kth/C13_nofault/C13_beyond — in the abstract program model a failing request invokes the handler in the very "
+         "action that made it and nothing later runs. Fault enumeration on the real code: for six scenarios (parse of strings/names/nested "
+         "aggregates/includes from string and file, API construction across the 16-child growth steps, set_string, set_include_dir + "
+         "include, write, overrides) the k-th allocation requested by library code is failed for EVERY k; each must reach the handler."),
+   note=TB + "Not decided: behaviour after a handler that returns (documented as undefined); allocations inside libc. The C++ bad_alloc path is exercised under C17.",
+   technique='kernel-decided theorem over a translated allocation-site inventory + abstract failure model in Lean 4 + exhaustive single-fault enumeration', ref='§5 C13'),
+ 'C14': dict(
+   text=("Partial. Proved: C14_statics / C14_imports — over inventories re-extracted on every run (nm on the compiled objects + preprocessed "
+         "source), the only static object ever written is the fatal-error function pointer and no imported function is on the POSIX "
+         "not-thread-safe list; C14_serial / C14_independent — in the footprint model every schedule gives every thread exactly the state "
+         "and outputs of running alone (induction over the schedule, any number of threads, any programs). Validation on the real code: "
+         "2..16 threads run independent workloads (parse from string and file with includes, failing parses, edits, removals, lookups, "
+         "writes with different options/precisions, write_file + read back) under ThreadSanitizer; each thread's transcript is compared "
+         "with its serial run."),
+   note=TB + "The C memory model and libc internals are outside the model; TSan sees executed paths only.",
+   technique='kernel-decided theorems over translated static-object/import inventories + commutation theorem in Lean 4 + TSan transcript comparison', ref='§5 C14'),
  'C15': dict(
    text=("Locale state machine (process-wide radix, optional thread locale): C15_inside (radix '.' inside every read/write), C15_restore "
          "(override then restore is the identity on the locale state — the repaired defect is the negative example), C15_global_untouched, "
@@ -111,6 +131,17 @@ CHECKS = {
          "ASan/LSan, which is what observes the copy/lifetime part of the property on the real code."),
    note=TB + "String-handle lifetime (strings handed out stay valid until changed) is observed by ASan on the implementation, not modelled.",
    technique='conservation law (multiset of live hooks) proved in Lean 4 by induction, including the parser loop; differential correspondence on destructor logs', ref='§5 C16'),
+ 'C18': dict(
+   text=("C18_equiv: for every byte string over the full alphabet, every start condition and both BOL states, the matcher compiled into "
+         "scanner.c (tables re-translated on every run) selects exactly the rule and length that the documented token definitions select "
+         "(longest match, earliest rule on ties) — proved by a kernel-checked bisimulation certificate between the flex automaton and the "
+         "Brzozowski-derivative automaton of the documented regular expressions (checkCert_sound lifts the finite check to all inputs); "
+         "C18_longest_first (declarative meaning of the selection), C18_never_skipped (flex's default ECHO rule is never selected: every "
+         "byte begins a token or is reported as garbage), C18_lineno (every rule whose language contains a newline is flagged for line "
+         "counting). Independent direct oracle: a Python tokenizer written from the documented definitions, compared with the real "
+         "libconfig_yylex token stream (kinds, names, unescaped strings) on generated and mutated inputs."),
+   note=TB + "The generic matching loop Flex.lean is a hand-written model of the skeleton flex emits; the manual's <float> pattern has a typo (mandatory sign in the second alternative) — scanner.l is followed, kernel-checked distinguishing example in Properties/C18.lean. The kernel check takes about 2 minutes when the tables change.",
+   technique='automaton equivalence: kernel-checked bisimulation certificate (decide +kernel, no native_decide) with a soundness theorem in Lean 4; tables regenerated from scanner.c', ref='§5 C18'),
  'C19': dict(
    text=("Theorems: C19_bytes (config_write's bytes are exactly the rendering of an item sequence), C19_tokens_invariant (any two "
          "presentation settings give the same token sequence up to white space, ';', '='/':' and number spelling), C19_member_layout + "
@@ -121,7 +152,7 @@ CHECKS = {
    technique='structural-induction theorems about the writer model in Lean 4 + byte-exact differential correspondence', ref='§5 C19'),
 }
 
-READY = ['C04', 'C05', 'C06', 'C07', 'C08', 'C09', 'C12', 'C15', 'C16', 'C19', 'C20']
+READY = ['C04', 'C05', 'C06', 'C07', 'C08', 'C09', 'C12', 'C13', 'C14', 'C15', 'C16', 'C18', 'C19', 'C20']
 NOT_YET = "check under construction in this round (model part exists, no registered check yet); see DESIGN.md §9"
 
 def main():
